@@ -110,7 +110,9 @@ func embedCarrier(c Case, g *docGen, url, tid, decoy, marker string) string {
 	case "iframe":
 		return `<iframe title="` + marker + `"` + size + ` src="` + u + `" frameborder="0" allowfullscreen></iframe>`
 	case "iframeTid":
-		return `<iframe title="` + marker + `" scrolling="no" frameborder="0" allowtransparency="true" data-tweet-id="` + tid + `" src="` + u + `"></iframe>`
+		// rendered tweets carry the class of the blockquote they replace; the class alone allows nothing
+		cls := g.pick("", "", ` class="twitter-tweet twitter-tweet-rendered"`, ` class="twitter-tweet"`)
+		return `<iframe title="` + marker + `"` + cls + ` scrolling="no" frameborder="0" allowtransparency="true" data-tweet-id="` + tid + `" src="` + u + `"></iframe>`
 	case "objData":
 		return `<object title="` + marker + `" type="application/x-shockwave-flash"` + size + ` data="` + u + `"></object>`
 	case "objParam":
@@ -314,6 +316,11 @@ func runEmbed(c Case, e *env) []Event {
 		id = digits(g, 19)
 	}
 	tid := digits(g, 18)
+	if c.str("carrier", "") == "iframeTid" && g.rng.Intn(6) == 0 {
+		// an id with characters that matter in HTML (written here as character references): whatever the
+		// attribute holds after parsing is the id, and it must come back unchanged
+		tid = digits(g, 6) + g.pick("&quot;", "&amp;amp;", "&lt;b&gt;", "&quot; onclick=&quot;zqh()") + digits(g, 6)
+	}
 	decoy := digits(g, 17)
 	marker := fmt.Sprintf("zqmk%d", 100000+g.rng.Intn(900000))
 	url := embedURL(c, id, rootName)
@@ -339,7 +346,7 @@ func runEmbed(c Case, e *env) []Event {
 	}
 	src := embedSource(doc)
 	call := Event{"ev": "Call", "run": c.ID, "prop": e.prop, "f": f,
-		"tok":      map[string]string{"ID": id, "TID": tid, "ROOT": rootName},
+		"tok":      map[string]string{"ID": id, "TID": html.UnescapeString(tid), "ROOT": rootName},
 		"pageHost": pageHost, "m": src}
 	if showInputs {
 		call["html"] = page
